@@ -187,6 +187,231 @@ class Lex(Part):
         return len(cases), bad
 
 
+PROGS = None
+
+
+def install_tree_stubs(I):
+    """the rewriting callbacks the harness hands to the real Rewriter / TokenRewriter (the only non-crate code on these paths)"""
+    M = {}
+    def leave(I, ctx, el): return I.enum_value(CR, 'RewriteAction', 'Leave')
+    M['__c17_leave'] = leave
+    def keep_token(I, ctx, slf, tok): return I.enum_value(CR, 'TokenRewriteAction', 'Keep')
+    M['<C17Keep as TokenRewrite>::token'] = keep_token
+    M['<C17Keep as TokenRewrite>::enter'] = lambda I, ctx, slf, n: UNIT
+    M['<C17Keep as TokenRewrite>::exit'] = lambda I, ctx, slf, n: UNIT
+    def replace_one(I, ctx, el):
+        # replace the k-th token by a clone with other text
+        env = ctx.c17
+        e = deref(el)
+        if e.variant == 'Token':
+            k = env['seen']; env['seen'] += 1
+            if k == env['target']:
+                new = I.call(ctx, CR, 'SyntaxToken::clone_with_text', [ValRef(e.fields[0]), ValRef(list(env['text']))])
+                return I.enum_value(CR, 'RewriteAction', 'Change', [I.enum_value(CR, 'SyntaxElement', 'Token', [new])])
+        return I.enum_value(CR, 'RewriteAction', 'Leave')
+    M['__c17_replace_one'] = replace_one
+    I.add_models(M)
+
+
+class Tree(Lex):
+    """bytes -> real tokenizer -> real parser (error recovery included) -> real green/red tree: printing, offsets, error spans, rewriting"""
+
+    def __init__(self, name, N=None, skeletons=None, nholes=1, required=(), time_cap=None, window=None, truncate=False):
+        super().__init__(name, N=N, skeletons=skeletons, nholes=nholes, required=required, time_cap=time_cap)
+        self.window, self.truncate = window, truncate
+        self.bounds['checks'] = 'parse + print == input, token offsets tile the input, error spans inside, identity Rewriter / TokenRewriter, single token replacement local'
+        if window is not None: self.bounds['hole_positions'] = f'window of {window[1]} positions starting at {window[0]} (mod length)'
+        if truncate: self.bounds['truncation'] = 'the text is cut after the symbolic byte'
+
+    def positions(self, sk):
+        if self.window is None: return list(range(max(1, len(sk) - self.nholes + 1)))
+        return [(self.window[0] + j) % len(sk) for j in range(min(self.window[1], len(sk)))]
+
+    def input(self, ctx, inp):
+        if self.skeletons is None: return [inp.byte(f'b{i}') for i in range(self.N)]
+        k = choose(ctx, inp, 'sk', len(self.skeletons)); sk = self.skeletons[k]
+        pos = self.positions(sk)
+        h = pos[choose(ctx, inp, 'hole', len(pos))]
+        data = [inp.byte(f'b{i}') if i == h else BV(sk[i], 8) for i in range(len(sk))]
+        return data[:h + 1] if self.truncate else data
+
+    def case_of(self, w):
+        if self.skeletons is None: return {'bytes': [w.get(f'b{i}', 0) for i in range(self.N)]}
+        sk = self.skeletons[w.get('sk', 0) % len(self.skeletons)]
+        pos = self.positions(sk); h = pos[w.get('hole', 0) % len(pos)]
+        d = [w.get(f'b{i}', 0) if i == h else sk[i] for i in range(len(sk))]
+        return {'bytes': d[:h + 1] if self.truncate else d}
+
+    def print_node(self, chk, ctx, node):
+        sink = VecV([])
+        r = chk.I.call(ctx, CR, 'SyntaxNode::write_to', [ValRef(node), ValRef(sink)])
+        if r.variant != 'Ok': raise Violation('write_to failed', 'shape')
+        return sink.items
+
+    def same_bytes(self, ctx, a, b, what, kind='content'):
+        if len(a) != len(b): raise Violation(f'{what}: {len(a)} bytes vs {len(b)}', 'length')
+        neq = False
+        for x, y in zip(a, b): neq = b_or(neq, b_not(bv_eq(x, y)))
+        ctx.obligations += 1
+        if neq is not False and ctx.feasible(neq):
+            ctx.solver.add(neq); raise Violation(f'{what}: bytes differ', kind)
+
+    def run(self, chk, ctx, inp, verify=True):
+        I = chk.I
+        self.token_fields, self.lexerr_fields = token_fields(chk)
+        data = self.input(ctx, inp); self._data = data; n = len(data)
+        try:
+            toks = self.lex(chk, ctx, data)
+            unterminated = False
+            for pair in toks:
+                e = pair.fields[1]
+                if e.variant == 'Some':
+                    ek = e.fields[0].fields[self.lexerr_fields.index('err')]
+                    if ek.variant == 'Unterminated' and ek.fields[0].variant == 'BlockComment': unterminated = True
+            if unterminated: ctx.notes.append('region:unterminated-block-comment')
+            ts = I.call(ctx, CR, 'TokenStream::new', [VecV(list(toks))])
+            parser = I.call(ctx, CR, 'Parser::new', [ts, I.enum_value(CR, 'VHDLStandard', 'VHDL2008')])
+            I.call(ctx, CR, 'Parser::design_file', [ValRef(parser)])
+            res = I.call(ctx, CR, 'Parser::into_root', [parser])
+            node, diags = res.fields
+            printed = self.print_node(chk, ctx, node)
+            summary = {'printed_len': len(printed), 'ndiag': len(seq_items(diags))}
+            if not verify: return summary
+            expect = list(data) + ([BV(42, 8), BV(47, 8)] if unterminated else [])
+            self.same_bytes(ctx, printed, expect, 'parse + print')
+            if unterminated:
+                ctx.model()
+                raise Violation(f'unterminated block comment printed with an added */ ({len(printed)} bytes for {n})', 'known-shape:added-comment-terminator')
+            # offsets tile the input
+            blen = ctx.concretize(I.call(ctx, CR, 'SyntaxNode::byte_len', [ValRef(node)]))
+            if blen != n: raise Violation(f'root byte_len {blen} != input length {n}', 'offsets')
+            from ..models import it_next
+            spans = []; tokvals = []
+            def walk(nd, at):
+                # every node starts where the previous sibling ended; its length is the sum of its children
+                noff = ctx.concretize(I.call(ctx, CR, 'SyntaxNode::offset', [ValRef(nd)]))
+                if noff != at: raise Violation(f'node {I.call(ctx, CR, "SyntaxNode::kind", [ValRef(nd)]).variant} starts at offset {noff}, expected {at}', 'offsets')
+                start = at
+                it = I.call(ctx, CR, 'SyntaxNode::children_with_tokens', [ValRef(nd)])
+                while True:
+                    o = it_next(I, ctx, it)
+                    if o.variant == 'None': break
+                    e = o.fields[0]
+                    if e.variant == 'Node': at = walk(e.fields[0], at)
+                    else:
+                        st = e.fields[0]
+                        off = ctx.concretize(I.call(ctx, CR, 'SyntaxToken::offset', [ValRef(st)]))
+                        ln = ctx.concretize(I.call(ctx, CR, 'SyntaxToken::byte_len', [ValRef(st)]))
+                        if off != at: raise Violation(f'token {len(spans)} starts at offset {off}, previous token ended at {at}', 'offsets')
+                        spans.append((off, ln)); tokvals.append(st); at = off + ln
+                nlen = ctx.concretize(I.call(ctx, CR, 'SyntaxNode::byte_len', [ValRef(nd)]))
+                if nlen != at - start: raise Violation(f'node byte_len {nlen} but its children cover {at - start} bytes', 'offsets')
+                return at
+            at = walk(node, 0); ntok = len(spans)
+            if at != n: raise Violation(f'tokens cover {at} of {n} bytes', 'offsets')
+            for d in seq_items(diags):
+                sp = deref(I.call(ctx, CR, 'SyntaxErr::span', [ValRef(d)]))
+                a, b = ctx.concretize(sp.fields[0]), ctx.concretize(sp.fields[1])
+                if not (a <= b <= n): raise Violation(f'error span {a}..{b} outside the input of {n} bytes', 'error-span')
+                ctx.cover('syntax error reported')
+            # identity rewrites
+            r1 = I.call(ctx, CR, 'SyntaxNode::rewrite', [ValRef(node), Agg('fnitem:__c17_leave', [])])
+            self.same_bytes(ctx, self.print_node(chk, ctx, r1), printed, 'Rewriter with Leave everywhere', 'rewrite')
+            self.same_tree(chk, ctx, node, r1, 'Rewriter with Leave everywhere')
+            tr = I.call(ctx, CR, 'TokenRewriter::new', [Agg('C17Keep', [])])
+            r2 = I.call(ctx, CR, 'TokenRewriter::rewrite', [ValRef(tr), node_clone(I, ctx, node)])
+            self.same_bytes(ctx, self.print_node(chk, ctx, r2), printed, 'TokenRewriter with Keep everywhere', 'rewrite')
+            self.same_tree(chk, ctx, node, r2, 'TokenRewriter with Keep everywhere')
+            # single token replacement is local: every token but Eof in turn, same path (the new text has a symbolic byte)
+            if ntok > 1:
+                newtext = [BV(0x51, 8), inp.byte('newbyte')]
+                targets = range(ntok - 1) if ntok <= 6 else sorted(set([0, 1, (ntok - 1) // 2, ntok - 3, ntok - 2]))
+                for k in targets:
+                    ctx.c17 = {'seen': 0, 'target': k, 'text': newtext}
+                    r3 = I.call(ctx, CR, 'SyntaxNode::rewrite', [ValRef(node), Agg('fnitem:__c17_replace_one', [])])
+                    off, ln = spans[k]
+                    tok_text_len = ctx.concretize(I.call(ctx, CR, 'Token::text_len', [I.call(ctx, CR, 'SyntaxToken::token', [ValRef(tokvals[k])])]))
+                    lead = ln - tok_text_len
+                    want = list(printed[:off + lead]) + newtext + list(printed[off + ln:])
+                    ctx.notes.append(f'target:{k}')
+                    self.same_bytes(ctx, self.print_node(chk, ctx, r3), want, f'replacing the text of token {k}', 'replace')
+                ctx.cover('token replaced')
+        except Panic as p:
+            raise Violation('panic: ' + str(p), 'panic')
+        ctx.cover('compared')
+        if ntok > 2: ctx.cover('three or more tokens')
+        return summary
+
+    def text_len_of(self, chk, ctx, node, k):
+        I = chk.I
+        from ..models import it_next
+        it = I.call(ctx, CR, 'SyntaxNode::tokens', [ValRef(node)])
+        for _ in range(k + 1): o = it_next(I, ctx, it)
+        t = I.call(ctx, CR, 'SyntaxToken::token', [ValRef(o.fields[0])])
+        return I.call(ctx, CR, 'Token::text_len', [t])
+
+    def same_tree(self, chk, ctx, a, b, what):
+        """structural identity of two red trees: same node kinds, same tokens (kind + printed bytes), same nesting"""
+        I = chk.I
+        def shape(n):
+            out = [('node', I.call(ctx, CR, 'SyntaxNode::kind', [ValRef(n)]).variant)]
+            from ..models import it_next
+            it = I.call(ctx, CR, 'SyntaxNode::children_with_tokens', [ValRef(n)])
+            while True:
+                o = it_next(I, ctx, it)
+                if o.variant == 'None': break
+                e = o.fields[0]
+                if e.variant == 'Node': out.append(shape(e.fields[0]))
+                else:
+                    k = I.call(ctx, CR, 'SyntaxToken::kind', [ValRef(e.fields[0])])
+                    out.append(('tok', k.variant if k.variant != 'Keyword' else 'Keyword:' + k.fields[0].variant, ctx.concretize(I.call(ctx, CR, 'SyntaxToken::byte_len', [ValRef(e.fields[0])]))))
+            return out
+        if shape(a) != shape(b): raise Violation(f'{what}: the rewritten tree has another shape', 'rewrite')
+
+    def replay_case(self, chk, w, v):
+        tg = [int(n.split(':')[1]) for n in v.get('notes', []) if n.startswith('target:')]
+        return native_tree_differs(chk, self.case_of(w), tg[-1] if tg else 0, w.get('newbyte', 0))
+
+    def translator_validation(self, chk):
+        rng = chk.rng
+        alpha = list(b'ab1_ \n"\'#:.-/*;()') + [0xE9]
+        cases = []
+        for _ in range(15 if chk.tier == 'quick' else 40):
+            w = {f'b{i}': rng.choice(alpha) for i in range(self.N or 200)}
+            if self.skeletons is not None:
+                w['sk'] = rng.randrange(len(self.skeletons)); w['hole'] = rng.randrange(200)
+                sk = self.skeletons[w['sk']]; h = self.positions(sk)[w['hole'] % len(self.positions(sk))]
+                if rng.random() < 0.6: w[f'b{h}'] = sk[h]
+            cases.append(w)
+        outs = chk.native.run('c17tree', [dict(self.case_of(w), target=0, newbyte=0) for w in cases])
+        bad = []
+        for w, out in zip(cases, outs):
+            ctx = Ctx()
+            try:
+                mine = self.run(chk, ctx, ConcInputs(ctx, w), verify=False)
+            except Violation as vv:
+                mine = {'panic': str(vv)}
+            if ('panic' in mine) != ('panic' in out) or ('ndiag' in mine and (mine['ndiag'] != out.get('ndiag') or mine['printed_len'] != len(out.get('printed', [])))):
+                bad.append({'case': self.case_of(w), 'interpreter': mine, 'native': {k: out.get(k) for k in ('ndiag', 'panic')}})
+        return len(cases), bad
+
+
+def node_clone(I, ctx, node):
+    return I.call(ctx, CR, '<SyntaxNode as Clone>::clone', [ValRef(node)])
+
+
+def native_tree_differs(chk, case, target, newbyte):
+    data = case['bytes']
+    for rel in (False, True):
+        out = chk.native.run('c17tree', [dict(case, target=target, newbyte=newbyte)], release=rel)[0]
+        if 'panic' in out: return True
+        if 'printed' not in out: return f'native replay failed: {out}'
+        if out['printed'] != data or out['byte_len'] != len(data) or not out['tiles'] or not out['spans_ok']: return True
+        if out['leave'] != out['printed'] or out['keep'] != out['printed'] or not out['leave_same_shape'] or not out['keep_same_shape']: return True
+        if out.get('replaced') is not None and out['replaced'] != out['replaced_expected']: return True
+    return False
+
+
 def native_differs(chk, case):
     for rel in (False, True):
         out = chk.native.run('c17lex', [case], release=rel)[0]
@@ -204,6 +429,7 @@ class C17(Check):
 
     def parts(self):
         if hasattr(self, '_parts'): return self._parts
+        install_tree_stubs(self.I)
         req = ('compared', 'token with leading trivia', 'lexical error reported')
         ps = []
         if self.tier == 'quick':
@@ -211,12 +437,25 @@ class C17(Check):
             ps.append(Lex('bytes N=1', N=1))
             sk = corpus.skeletons('vhdl_syntax', self.seed, count=60, max_len=12)
             ps.append(Lex('skeletons, 1 symbolic byte', skeletons=sk, nholes=1, required=('compared', 'bit string literal merged')))
+            progs = [p.encode('latin-1') for p in json.load(open(os.path.join(os.path.dirname(__file__), 'programs.json')))]
+            w0 = (self.seed * 7) % 40
+            treq = ('compared', 'token replaced', 'syntax error reported')
+            ps.append(Tree('trees: bytes N<=2', N=2, required=('compared',)))
+            ps.append(Tree('trees: lexeme skeletons, 1 symbolic byte', skeletons=sk[:40], required=treq))
+            ps.append(Tree('trees: programs, 1 symbolic byte in a window', skeletons=progs, window=(w0, 2), required=treq))
+            ps.append(Tree('trees: programs cut after 1 symbolic byte (last 4 positions)', skeletons=progs, window=(-4, 4), truncate=True, required=treq))
         else:
             ps.append(Lex('bytes N<=3', N=3, required=req))
             ps.append(Lex('bytes N<=2', N=2, required=req))
             sk = corpus.skeletons('vhdl_syntax', self.seed, count=225, max_len=24)
             ps.append(Lex('skeletons, 1 symbolic byte', skeletons=sk, nholes=1, required=('compared', 'bit string literal merged')))
             ps.append(Lex('skeletons, 2 adjacent symbolic bytes', skeletons=[x for x in sk if len(x) <= 10][:80], nholes=2))
+            progs = [p.encode('latin-1') for p in json.load(open(os.path.join(os.path.dirname(__file__), 'programs.json')))]
+            treq = ('compared', 'token replaced', 'syntax error reported')
+            ps.append(Tree('trees: bytes N<=2', N=2, required=('compared',)))
+            ps.append(Tree('trees: lexeme skeletons, 1 symbolic byte', skeletons=sk, required=treq))
+            ps.append(Tree('trees: programs, 1 symbolic byte anywhere', skeletons=progs, required=treq))
+            ps.append(Tree('trees: programs cut after 1 symbolic byte', skeletons=progs, truncate=True, required=treq))
         self._parts = ps
         return ps
 
